@@ -29,12 +29,12 @@ func sortedFuncs(m map[string]*FuncInfo) []*FuncInfo {
 type LitUse int
 
 const (
-	LitOther    LitUse = iota // stored, passed as a callback, returned …
-	LitCalled                 // func(){…}() — runs in place
-	LitOnceDo                 // sync.Once.Do(func(){…}) — runs in place, at most once
-	LitGo                     // go func(){…}()
-	LitDefer                  // defer func(){…}()
-	LitSyncArg                // passed to a same-package function that calls its parameter synchronously (see PkgIndex.syncParams)
+	LitOther   LitUse = iota // stored, passed as a callback, returned …
+	LitCalled                // func(){…}() — runs in place
+	LitOnceDo                // sync.Once.Do(func(){…}) — runs in place, at most once
+	LitGo                    // go func(){…}()
+	LitDefer                 // defer func(){…}()
+	LitSyncArg               // passed to a same-package function that calls its parameter synchronously (see PkgIndex.syncParams)
 )
 
 // PkgIndex indexes the functions, literals and call sites of one package.
